@@ -185,7 +185,8 @@ GENERATED = {"mergeprogs": "MergeProgs.lean", "lockfacts": "LockFacts.lean", "ev
 GOTRANS = {"gocircuit": "GoCircuit", "gohopener": "GoHOpener", "gohcloser": "GoHCloser", "goconsec": "GoConsec",
            "gorunstats": "GoRunStats", "gofbstats": "GoFbStats", "goslo": "GoSlo", "gotimedcheck": "GoTimedCheck", "golivecfg": "GoLiveCfg",
            "gofanrun": "GoFanRun", "gofanfb": "GoFanFb", "gofancirc": "GoFanCirc", "gostream": "GoStream", "gosetcfg": "GoSetCfg",
-           "gorollingbuckets": "GoRollingBuckets", "gorollingcounter": "GoRollingCounter", "gomanager": "GoManager", "gosorteddurations": "GoSortedDurations"}
+           "gorollingbuckets": "GoRollingBuckets", "gorollingcounter": "GoRollingCounter", "gomanager": "GoManager", "gosorteddurations": "GoSortedDurations",
+           "gorollingbucketsp": "GoRollingBucketsP", "gorollingpercentile": "GoRollingPercentile", "godurationsbucket": "GoDurationsBucket"}
 
 def regenerate(name):
     """re-run an extractor on REPO's working tree and (re)write lean/Generated/<file> if it changed.
